@@ -117,7 +117,7 @@ type Peer struct {
 	Name    string
 	ID      peer.ID
 	mu      sync.Mutex
-	blocks  map[cid.Cid]ipld.Node
+	blocks  map[string]ipld.Node // keyed by multihash, as real blockstores are: a CID with another codec or version reaches the same bytes
 	effects []Effect
 	// Isolated peers never fetch from others (used for crash recovery worlds).
 	Isolated bool
@@ -132,7 +132,7 @@ func (n *Net) AddPeer(name string) *Peer {
 	if p, ok := n.peers[id]; ok {
 		return p
 	}
-	p := &Peer{net: n, Name: name, ID: id, blocks: map[cid.Cid]ipld.Node{}}
+	p := &Peer{net: n, Name: name, ID: id, blocks: map[string]ipld.Node{}}
 	n.peers[id] = p
 	n.order = append(n.order, id)
 	return p
@@ -174,17 +174,25 @@ func (p *Peer) Effects() []Effect {
 func (p *Peer) HasBlock(c cid.Cid) bool {
 	p.mu.Lock()
 	defer p.mu.Unlock()
-	_, ok := p.blocks[c]
+	_, ok := p.blocks[string(c.Hash())]
 	return ok
 }
+
+// aliasNode presents stored bytes under a CID that names the same digest with another codec or version.
+type aliasNode struct {
+	ipld.Node
+	c cid.Cid
+}
+
+func (a *aliasNode) Cid() cid.Cid { return a.c }
 
 // Blocks returns the sorted list of locally held block cids.
 func (p *Peer) Blocks() []string {
 	p.mu.Lock()
 	defer p.mu.Unlock()
 	out := make([]string, 0, len(p.blocks))
-	for c := range p.blocks {
-		out = append(out, c.String())
+	for _, n := range p.blocks {
+		out = append(out, n.Cid().String())
 	}
 	sort.Strings(out)
 	return out
@@ -193,21 +201,27 @@ func (p *Peer) Blocks() []string {
 // PutBlock stores a node without logging (used to build recovered worlds).
 func (p *Peer) PutBlock(n ipld.Node) {
 	p.mu.Lock()
-	p.blocks[n.Cid()] = n
+	p.blocks[string(n.Cid().Hash())] = n
 	p.mu.Unlock()
 }
 
 func (p *Peer) BlockNode(c cid.Cid) (ipld.Node, bool) {
 	p.mu.Lock()
 	defer p.mu.Unlock()
-	n, ok := p.blocks[c]
+	n, ok := p.blocks[string(c.Hash())]
+	if ok && !n.Cid().Equals(c) {
+		return &aliasNode{Node: n, c: c}, true
+	}
 	return n, ok
 }
 
 func (p *Peer) addLocal(n ipld.Node) {
+	if a, ok := n.(*aliasNode); ok {
+		n = a.Node
+	}
 	p.mu.Lock()
-	_, had := p.blocks[n.Cid()]
-	p.blocks[n.Cid()] = n
+	_, had := p.blocks[string(n.Cid().Hash())]
+	p.blocks[string(n.Cid().Hash())] = n
 	if !had {
 		p.effects = append(p.effects, Effect{Kind: "block", Key: n.Cid().String(), Node: n})
 	}
